@@ -295,7 +295,7 @@ def _const_value_kinds():
     raise AnalysisError(f"oracle: ConstValueNode union not found in {path}")
 
 
-@rule("C06.R1", "input list items are nullable unless marked non-null (same flag algebra as result types)", min_instances=4)
+@rule("C06.R1", "input list items are nullable unless marked non-null (same flag algebra as result types)", min_instances=4, also=["C03"])
 def c06_r1(ctx):
     repo = ctx.repo
     fi = repo.func(IF + "parse_input_field_type")
